@@ -24,6 +24,12 @@ import (
 //   own/gas-over-block fresh copy asking for more gas than a whole block has (block gas limit path)
 //   own/dup        fresh copy inserted AFTER the original (fails in the handler for kinds that are not repeatable)
 //   foreign        the valid target of another scenario, inserted where its preconditions do not hold
+//   instead/gas-1, instead/price-huge
+//                  the history WITHOUT one of its transactions is the twin; the run has a late-failing fresh
+//                  copy of that transaction in its place (handler succeeds, fee step fails). Differs from own/*
+//                  in that no successful execution of the same transaction follows the failed one: whatever
+//                  the failed handler left behind in memory (a cursor, a cached record, a flag) is what the
+//                  next block hook or the next transaction of ANOTHER kind meets
 // Only insertions whose DeliverTx code is non-zero count (the others are not failures and are skipped).
 
 func init() { commands["C06"] = c06 }
@@ -37,6 +43,7 @@ type c06Job struct {
 	Src   string // "" = own
 	Tx    int    // own: flat index into the history's transactions; foreign: flat index in Src
 	Mode  string
+	Drop  bool `json:",omitempty"` // modes instead/*: transaction Tx is removed from the history (twin and run)
 }
 
 type c06Res struct {
@@ -66,9 +73,9 @@ func c06Insert(h *hist, j c06Job, gas int64) (*harness.TxSpec, error) {
 	}
 	t := txs[j.Tx].Fresh("c06" + j.Mode)
 	switch j.Mode {
-	case "gas-1":
+	case "gas-1", "instead-gas-1":
 		t.Fee.Gas = gas
-	case "price-huge":
+	case "price-huge", "instead-price-huge":
 		p, _ := new(big.Int).SetString("10000000000000000000000000000000000000000", 10)
 		t.Fee.Price.Value = *balance.NewAmountFromBigInt(p)
 	case "gas-tiny":
@@ -107,24 +114,49 @@ func c06Run(h *hist, ins *harness.TxSpec, block, at int) ([]*harness.BlockResult
 	return x.Results, false, nil
 }
 
+// c06Hist builds the history of a job; for the instead/* modes the transaction the failing copy replaces is
+// taken out of its block (the copy itself is made from the complete history).
+func c06Hist(j c06Job) (*hist, *hist, error) {
+	full, err := buildHist(j.Scn, c06Extra)
+	if err != nil {
+		return nil, nil, err
+	}
+	if !j.Drop {
+		return full, full, nil
+	}
+	h, _ := buildHist(j.Scn, c06Extra)
+	b := &h.Blocks[j.Block]
+	if j.At >= len(b.Txs) {
+		return nil, nil, fmt.Errorf("instead: position out of range")
+	}
+	b.Txs = append(append([]*harness.TxSpec(nil), b.Txs[:j.At]...), b.Txs[j.At+1:]...)
+	return h, full, nil
+}
+
 func c06Exec(j c06Job) c06Res {
-	h, err := buildHist(j.Scn, c06Extra)
+	h, full, err := c06Hist(j)
 	if err != nil {
 		return c06Res{Err: err.Error()}
 	}
-	base, ok := c06Base[h.ID]
+	baseKey := h.ID
+	if j.Drop {
+		baseKey = fmt.Sprintf("%s|without %d/%d", h.ID, j.Block, j.At)
+	}
+	base, ok := c06Base[baseKey]
 	if !ok {
 		base, err = runPlain(h.W, noCheck(h.Blocks), false)
-		if err != nil {
+		if err != nil && !j.Drop {
 			return c06Res{Err: "baseline: " + err.Error()}
 		}
-		c06Base[h.ID] = base
+		// (a history that lost one of its transactions may halt where the complete one does not - e.g. an
+		// election left without candidates: then the run with the failed copy must halt at the same place)
+		c06Base[baseKey] = base
 	}
 	gas := int64(0)
-	if j.Mode == "gas-1" {
+	if j.Mode == "gas-1" || j.Mode == "instead-gas-1" {
 		// measure the gas the fresh copy uses at this very position
-		h, _ = buildHist(j.Scn, c06Extra)
-		probe, err := c06Insert(h, j, harness.DefaultGas*10)
+		h, full, _ = c06Hist(j)
+		probe, err := c06Insert(full, j, harness.DefaultGas*10)
 		if err != nil {
 			return c06Res{Err: err.Error()}
 		}
@@ -141,8 +173,8 @@ func c06Exec(j c06Job) c06Res {
 		}
 		gas = pr.GasUsed - 1
 	}
-	h, _ = buildHist(j.Scn, c06Extra)
-	ins, err := c06Insert(h, j, gas)
+	h, full, _ = c06Hist(j)
+	ins, err := c06Insert(full, j, gas)
 	if err != nil {
 		return c06Res{Err: err.Error()}
 	}
@@ -262,6 +294,8 @@ func c06(args []string) int {
 					}
 				}
 				jobList = append(jobList, c06Job{Scn: sc.ID(), Block: bi, At: k + 1, Tx: flat + k, Mode: "dup"})
+				jobList = append(jobList, c06Job{Scn: sc.ID(), Block: bi, At: k, Tx: flat + k, Mode: "instead-gas-1", Drop: true},
+					c06Job{Scn: sc.ID(), Block: bi, At: k, Tx: flat + k, Mode: "instead-price-huge", Drop: true})
 			}
 			// foreign failing transactions at every position of this block
 			seenKind := map[string]bool{}
